@@ -1131,7 +1131,7 @@ func validatePath(p gPath, style skipStyle) string {
 
 func checkC02(P *Program, r *Result, tier string) {
 	r.Explanation = "GRAMMAR (every successful path of each skipper — loops taken 0, 1, 2 times — consumes a sentence of the Thrift Binary value grammar for its type class, each element skipped by its own type tag: fixed size only under size>0 of that tag, string skip only under tag==STRING, recursion with that tag; container loops bounded by the header's size word; fast paths consume size×element size), " +
-		"TIGHT (no success return of the pointer-based skipper requires a byte beyond what it consumes: values ending exactly at the end of the buffer are accepted), ACCUM (each decoder's SkipN hands out exactly the next n bytes after the bytes already accumulated and advances the counter by n on success only; the counter restarts at 0 whenever a new value or input begins), " +
+		"DEPTH (every recursive call passes exactly its own depth minus one per nesting level, entries start at 64: values nested up to the limit are accepted, wide ones too), TIGHT (no success return of the pointer-based skipper requires a byte beyond what it consumes: values ending exactly at the end of the buffer are accepted), ACCUM (each decoder's SkipN hands out exactly the next n bytes after the bytes already accumulated and advances the counter by n on success only; the counter restarts at 0 whenever a new value or input begins), " +
 		"DECODER-BYTES (Next returns exactly the accumulated window), IOREADER (ReaderSkipDecoder.SkipN can never read past the n bytes asked for)."
 	type target struct {
 		fn     *ssa.Function
@@ -1230,6 +1230,14 @@ func checkC02(P *Program, r *Result, tier string) {
 			}
 		}
 		r.add("GRAMMAR", shortName(fn), "paths", fmt.Sprintf("all %d successful paths (%s) are sentences of the value grammar", len(paths), strings.Join(cl, " ")), P.pos(fn.Pos()), okAll, I.bad)
+	}
+	// ---- DEPTH: the recursion budget is spent per nesting level, not per element ----
+	var dscope []*ssa.Function
+	for _, t := range targets {
+		dscope = append(dscope, t.fn)
+	}
+	if recs := depthRules(P, r, newAnalysis(P), dscope); recs < 5 {
+		r.fatal("expected 5 recursive skipper bodies, found %d", recs)
 	}
 	// ---- TIGHT ----
 	var spanFns []*ssa.Function
